@@ -63,8 +63,17 @@ fn slice_case(ctx: &mut Ctx, input: &Value) {
             return
         }
     };
-    let imp = format!("enc={} dec={}", hex(&enc), outcome.show(kind));
-    ctx.case(input, &op, &imp);
+    // The model's duplicate-key check is quadratic: maps beyond a few thousand entries go
+    // through the real code and the oracle only.
+    let huge = shown.get("delta_state").map(|s| s.matches(',').count() > 6000).unwrap_or(false);
+    if huge {
+        ctx.case_oracle_only(input, &format!("enc={} bytes dec={}", enc.len(), outcome.class()));
+        ctx.count("kind:state-huge-map");
+    }
+    else {
+        let imp = format!("enc={} dec={}", hex(&enc), outcome.show(kind));
+        ctx.case(input, &op, &imp);
+    }
     ctx.count(&format!("kind:{kind}"));
     ctx.nontrivial(format!("{kind}:{}:{}", field_kinds(&shown), trail.len().min(2)));
 
@@ -343,7 +352,7 @@ pub fn run_c28(ctx: &mut Ctx) {
     ctx.rule = "values of each persisted record type (StoredPointHeader, StoredManifest, StoredObject, StoredStatus, \
         RepositoryState) through the real write/read with random trailing bytes; boundary integers, times at \
         chrono's limits and with sub-second parts, URIs with mixed-case schemes / long segments / trailing slash, \
-        byte strings of length 0,1,255,256,257,4095,4096 (thorough: also 65535,65536), maps of 0..120 (thorough: 1500) entries; every optional \
+        byte strings of length 0,1,255,256,257,4095,4096 (thorough: also 65535,65536), maps of 0..120 (thorough: 1500) entries and of 1023,1024,1025,1026,2000,2047..2049,5000,65535..65537 entries; every optional \
         field cycled None/Some; plus whole stored-point files (open/update/load_quietly/iterate), status.bin \
         (Run::done/Store::status), RRDP state in an archive (publish/update/load_state), and the URI validators. \
         non-trivial = (record kind, pattern of absent/empty/present fields, trailing length class)".into();
@@ -360,6 +369,13 @@ pub fn run_c28(ctx: &mut Ctx) {
                     let trail = gen::trail(&mut rng);
                     res.push(json!({"rec": kind, "fields": f.show(), "trail": hex(&trail)}));
                 }
+            }
+            // maps around every size the map codec treats specially
+            for (k, n) in gen::MAP_SIZES.iter().enumerate() {
+                let mut rng = ctx.rng.fork();
+                let f = gen::state_with_map(&mut rng, *n);
+                let trail = if k % 2 == 0 { Vec::new() } else { gen::trail(&mut rng) };
+                res.push(json!({"rec": "state", "fields": f.show(), "trail": hex(&trail)}));
             }
             for i in 0..ctx.budget(150, 3_000) {
                 let mut rng = ctx.rng.fork();
